@@ -126,7 +126,7 @@ def run_e2e(cfg, hist):
     handled = []
 
     async def on_bar(ev):
-        t = int((ev.when - T(0)) / exch.DAY)
+        t = int((ev.when - T(0)) / exch.STEP)
         handled.append(t)
         w.t = t
         # results are recorded in history order: the bar itself, then the actions
